@@ -4,6 +4,7 @@ import (
 	"math"
 	"math/rand"
 	"sort"
+	"strings"
 
 	"verifharness/rig"
 )
@@ -12,12 +13,42 @@ import (
 type gen struct {
 	r          *rand.Rand
 	lastStream string
+	insts      []string // the instance identities of the case being generated
 }
+
+// newUniverse draws the instance identities of a case: plain short names, or a family of identities that are easy
+// to confuse — long ones (64, 65, 128, 253, 1000 bytes) that share a long prefix and differ only in the tail,
+// identities that differ in case / one byte / trailing characters, identities containing separators. "Per
+// instance" has to mean per exact identity everywhere (counts, request ids, removal).
+func (g *gen) newUniverse() {
+	rep := func(n int) string { return strings.Repeat("p", n) }
+	var fam []string
+	switch k := g.r.Intn(10); {
+	case k < 5:
+		g.insts = []string{"i1", "i2", "i3"}
+		return
+	case k < 7:
+		l := rig.Pick(g.r, []int{63, 64, 127, 252, 999})
+		p := rep(l)
+		fam = []string{p + "a", p + "b", p, p + "ab", p + "a "}
+	case k < 8:
+		// what the gateways send: <--client-id-prefix>-<pid>-<rand5>
+		p := "kube-gateway-" + strings.Repeat("x", rig.Pick(g.r, []int{38, 51, 60, 115})) + "-"
+		fam = []string{p + "12345-abcde", p + "12345-abcdf", p + "12346-abcde", p + "2345-abcde"}
+	case k < 9:
+		fam = []string{"gw-1", "GW-1", "gw-1 ", "gw-1.", "gw-10", "gw-1\t", "Gw-1"}
+	default:
+		fam = []string{"a,b", "a;b", "a:b", "a/b", "a b", "a=b", "[a: 1]", "a", "b"}
+	}
+	g.r.Shuffle(len(fam), func(i, j int) { fam[i], fam[j] = fam[j], fam[i] })
+	g.insts = fam[:3+g.r.Intn(2)]
+}
+
 
 func i32(v int32) *int32 { return &v }
 
 var (
-	instNames = []string{"i1", "i2", "i3"}
+	instNames = []string{"i1", "i2", "i3"} // replaced per case by gen.newUniverse
 	fcA       = rig.Hex("a")
 	fcB       = rig.Hex("b")
 	fcT       = rig.Hex("t")
@@ -35,7 +66,7 @@ func (g *gen) pickInst(raw bool) string {
 		// odd but valid UTF-8 (instance names become metric label values, which must be valid UTF-8)
 		return rig.Hex(rig.Pick(g.r, []string{"", " ", "i1 ", "I1", "i,1]", "[i1: 3]", "\u00e9", "i1\n", "count=5 total=7"}))
 	}
-	return rig.Hex(rig.Pick(g.r, instNames))
+	return rig.Hex(rig.Pick(g.r, g.insts))
 }
 
 func (g *gen) pickRid(st *seqState, inst string) int64 {
@@ -147,7 +178,12 @@ func (g *gen) mutateSchemas(st *seqState, limits []int32) []Schema {
 }
 
 func (g *gen) seqCase(i int) Case {
-	stream := []string{"basic", "tb-params", "tb-resync", "overlimit", "overlimit", "ids", "edge", "acquire", "tb-params", "basic"}[i%10]
+	g.newUniverse()
+	stream := []string{"basic", "tb-params", "tb-resync", "overlimit", "lifecycle", "ids", "edge", "acquire", "lifecycle", "overlimit"}[i%10]
+	if stream == "lifecycle" {
+		g.lastStream = stream
+		return g.lifecycleCase()
+	}
 	if stream == "tb-resync" {
 		g.lastStream = stream
 		return g.resyncCase()
@@ -201,7 +237,7 @@ func (g *gen) seqCase(i int) Case {
 		case w < 40 || (stream == "ids" && w < 75):
 			inst := g.pickInst(raw)
 			if stream == "ids" {
-				inst = rig.Hex("i1")
+				inst = rig.Hex(g.insts[0])
 			}
 			op := Op{K: "set", FC: g.pickFC(st), Inst: inst}
 			op.Rid = g.pickRid(st, inst)
@@ -246,10 +282,13 @@ func (g *gen) seqCase(i int) Case {
 			ops = append(ops, op)
 		case w < 88:
 			ops = append(ops, Op{K: "sync", Schemas: g.mutateSchemas(st, limits)})
-		default:
+		case w < 93:
 			inst := g.pickInst(raw)
 			delete(st.lastID, inst)
 			ops = append(ops, Op{K: "del", Inst: inst})
+		default:
+			// the server's own removal paths
+			ops = append(ops, g.lifeOp(st.lastID))
 		}
 	}
 	return Case{Kind: "seq", Ops: g.withProbes(ops)}
@@ -325,7 +364,7 @@ func (g *gen) paramsCase() Case {
 			if g.r.Intn(3) == 0 {
 				reqs = append(reqs, Req{FC: fcA, Tokens: int32(g.r.Intn(8))})
 			}
-			ops = append(ops, Op{K: "acq", Inst: rig.Hex(rig.Pick(g.r, instNames)), Rid: rid, Nows: make([]int64, 8), Reqs: reqs})
+			ops = append(ops, Op{K: "acq", Inst: rig.Hex(rig.Pick(g.r, g.insts)), Rid: rid, Nows: make([]int64, 8), Reqs: reqs})
 		case w < 13: // this bucket re-delivered unchanged next to a changed schema
 			switch g.r.Intn(4) {
 			case 0:
@@ -370,6 +409,90 @@ func lastSync(ops []Op) int {
 	return 0
 }
 
+// lifeOp: a heartbeat, a stored condition, a heartbeat time-out sweep (one, several or all known identities stale,
+// sometimes one that is not on record), or the clean-up of conditions of unknown clients.
+func (g *gen) lifeOp(lastID map[string]int64) Op {
+	switch w := g.r.Intn(10); {
+	case w < 4:
+		return Op{K: "hb", Inst: rig.Hex(rig.Pick(g.r, g.insts))}
+	case w < 5:
+		return Op{K: "cond", Inst: rig.Hex(rig.Pick(g.r, g.insts))}
+	case w < 9:
+		var stale []string
+		for _, i := range g.insts {
+			if g.r.Intn(3) == 0 {
+				stale = append(stale, rig.Hex(i))
+			}
+		}
+		if len(stale) == 0 || g.r.Intn(6) == 0 {
+			stale = append(stale, rig.Hex(rig.Pick(g.r, g.insts)))
+		}
+		if g.r.Intn(8) == 0 {
+			stale = append(stale, rig.Hex("nobody"))
+		}
+		for _, h := range stale {
+			delete(lastID, h)
+		}
+		return Op{K: "sweep", Stale: stale}
+	default:
+		return Op{K: "unknown"}
+	}
+}
+
+// lifecycleCase: several instances are known to the server (heartbeats, some with a stored condition) and hold
+// in-flight counts that fill the limit; one or several of them time out in one sweep or are cleaned up as unknown
+// clients, live ones report around the sweep, removed ones come back; the freed room is asked for at once.
+func (g *gen) lifecycleCase() Case {
+	limit := rig.Pick(g.r, []int32{10, 20, 101})
+	schemas := []Schema{{Name: fcA, Mif: i32(limit)}}
+	if g.r.Intn(3) == 0 {
+		schemas = append(schemas, Schema{Name: fcB, Mif: i32(rig.Pick(g.r, []int32{5, 50}))})
+	}
+	ops := []Op{{K: "sync", Schemas: schemas}}
+	lastID := map[string]int64{}
+	report := func(inst string, cur int32) Op {
+		h := rig.Hex(inst)
+		lastID[h] += int64(1 + g.r.Intn(2))
+		fc := fcA
+		if len(schemas) > 1 && g.r.Intn(4) == 0 {
+			fc = fcB
+		}
+		if g.r.Intn(3) == 0 {
+			return Op{K: "acq", Inst: h, Rid: lastID[h], Nows: make([]int64, 8), Reqs: []Req{{FC: fc, Tokens: cur}}}
+		}
+		return Op{K: "set", FC: fc, Inst: h, Rid: lastID[h], Cur: cur}
+	}
+	// everybody says hello and takes a share that nearly fills the limit
+	share := limit / int32(len(g.insts))
+	for _, i := range g.insts {
+		if g.r.Intn(8) != 0 {
+			ops = append(ops, Op{K: "hb", Inst: rig.Hex(i)})
+		}
+		if g.r.Intn(3) == 0 {
+			ops = append(ops, Op{K: "cond", Inst: rig.Hex(i)})
+		}
+		ops = append(ops, report(i, share+int32(g.r.Intn(2))))
+	}
+	for k := 4 + g.r.Intn(14); k > 0; k-- {
+		switch w := g.r.Intn(10); {
+		case w < 4:
+			ops = append(ops, g.lifeOp(lastID))
+		case w < 9:
+			// a live one reports: its share, a bit more, or everything that should be free now
+			cur := rig.Pick(g.r, []int32{share, share + 1, share - 1, limit - share, limit, 1, 0, 2 * share})
+			if cur < 0 {
+				cur = 0
+			}
+			ops = append(ops, report(rig.Pick(g.r, g.insts), cur))
+		default:
+			h := rig.Hex(rig.Pick(g.r, g.insts))
+			delete(lastID, h)
+			ops = append(ops, Op{K: "del", Inst: h})
+		}
+	}
+	return Case{Kind: "seq", Ops: ops}
+}
+
 // resyncCase: a token bucket next to other schemas of the same cluster; tokens are drawn, the cluster's spec is
 // synced again with a difference ELSEWHERE (another schema edited / added / removed, order changed) or the bucket is
 // resized to the values it has, and tokens are drawn again at once.
@@ -388,7 +511,7 @@ func (g *gen) resyncCase() Case {
 	acq := func() Op {
 		rid++
 		tk := rig.Pick(g.r, []int32{burst, burst, burst / 2, 1, 2 * burst, 8 * burst, burst + 1})
-		return Op{K: "acq", Inst: rig.Hex(rig.Pick(g.r, instNames)), Rid: rid, Nows: make([]int64, 8), Reqs: []Req{{FC: fcT, Tokens: tk}}}
+		return Op{K: "acq", Inst: rig.Hex(rig.Pick(g.r, g.insts)), Rid: rid, Nows: make([]int64, 8), Reqs: []Req{{FC: fcT, Tokens: tk}}}
 	}
 	for k := 4 + g.r.Intn(12); k > 0; k-- {
 		switch w := g.r.Intn(10); {
@@ -464,11 +587,24 @@ func (g *gen) bucketCase() Case {
 }
 
 func (g *gen) concCase(i int, rounds int) Case {
+	g.newUniverse()
+	// "i1", "i2", "i3" below stand for the first three identities of the case's universe
+	nm := func(inst string) string {
+		switch inst {
+		case "i1":
+			return rig.Hex(g.insts[0])
+		case "i2":
+			return rig.Hex(g.insts[1])
+		case "i3":
+			return rig.Hex(g.insts[2])
+		}
+		return rig.Hex(inst)
+	}
 	a := func(max int32) Op { return Op{K: "sync", Schemas: []Schema{{Name: fcA, Mif: i32(max)}}} }
 	set := func(inst string, rid int64, cur int32) Op {
-		return Op{K: "set", FC: fcA, Inst: rig.Hex(inst), Rid: rid, Cur: cur}
+		return Op{K: "set", FC: fcA, Inst: nm(inst), Rid: rid, Cur: cur}
 	}
-	del := func(inst string) Op { return Op{K: "del", Inst: rig.Hex(inst)} }
+	del := func(inst string) Op { return Op{K: "del", Inst: nm(inst)} }
 	cs := Case{Kind: "conc", Rounds: rounds, Reader: g.r.Intn(4) == 0}
 	streams := []string{"removals", "report-removal", "same-id", "near-limit", "mixed", "resize", "acquire-removal", "mixed"}
 	g.lastStream = streams[i%len(streams)]
@@ -506,7 +642,7 @@ func (g *gen) concCase(i int, rounds int) Case {
 			{set("i1", 2, int32(g.r.Intn(70)))}, {set("i2", 2, int32(g.r.Intn(70)))}}
 	case "acquire-removal":
 		cs.Prefix = []Op{a(100), set("i1", 1, 30)}
-		acq := Op{K: "acq", Inst: rig.Hex("i1"), Rid: 2, Nows: make([]int64, 8), Reqs: []Req{{FC: fcA, Tokens: int32(g.r.Intn(120))}}}
+		acq := Op{K: "acq", Inst: nm("i1"), Rid: 2, Nows: make([]int64, 8), Reqs: []Req{{FC: fcA, Tokens: int32(g.r.Intn(120))}}}
 		cs.Threads = [][]Op{{acq}, {del("i1")}, {set("i2", 1, int32(g.r.Intn(90)))}}
 	default: // mixed
 		cs.Prefix = []Op{a(int32(20 + g.r.Intn(60))), set("i1", 1, int32(g.r.Intn(30))), set("i2", 1, int32(g.r.Intn(30)))}
